@@ -225,6 +225,8 @@ class VM(Machine):
                     ops.dict_del(o, k)
                 elif isinstance(o, PyList):
                     del o.items[k]
+                elif isinstance(o, Opaque) and hasattr(o, "m_delitem"):
+                    o.m_delitem(self, k)
                 elif isinstance(o, Obj) and o.cls.find("__delitem__", self.loader):
                     self.call_func(o.cls.find("__delitem__", self.loader)[2], [o, k], {})
                 else:
@@ -381,6 +383,8 @@ class VM(Machine):
             hook = self.spec.opaque_hooks.get("obj_iter")
             if hook:
                 it = hook(self, it)
+        if isinstance(it, Opaque) and hasattr(it, "m_iter"):
+            it = it.m_iter(self)
         if isinstance(it, SymStream):
             return (yield from self.stream_rule(it, fr, body, site, body_nodes))
         if isinstance(it, Opaque):
